@@ -232,6 +232,80 @@ def run(chk):
         chk.ob('C14-N', '%s.find raises ChildNotFound when nothing matches' % v, ok, '', f2.loc, key='C14-N|%s.find' % v)
     chk.assume('that reads, writes and deletes through the three spellings reach the same object is object identity at run time: declined')
 
+    # ---- X: the proxy cache is keyed by canonical child names only
+    chk.rule('C14-X', 'ElementList files an ElementProxy in self.proxies only under a canonical child name (a key of indexes / '
+                      'traversal_indexes, or the result of _find_name): an entry under the caller\'s spelling (long name, positional '
+                      'path) would survive a change of the structure and keep addressing the old child')
+    import ast as _ast
+    from ..src import own_nodes as _own, norm as _norm
+    CANON_MAPS = ('self.indexes', 'self.traversal_indexes')
+
+    def _member_of_maps(test, k):
+        """truth of test implies k is a key of one of the by-name maps"""
+        if isinstance(test, _ast.BoolOp) and isinstance(test.op, _ast.Or):
+            return all(_member_of_maps(v, k) for v in test.values)
+        if isinstance(test, _ast.BoolOp) and isinstance(test.op, _ast.And):
+            return any(_member_of_maps(v, k) for v in test.values)
+        return isinstance(test, _ast.Compare) and len(test.ops) == 1 and isinstance(test.ops[0], _ast.In) and \
+            _norm(test.left) == k and _norm(test.comparators[0]) in CANON_MAPS
+
+    def _nonmember(test, k):
+        """falsity of test implies k is a key of one of the maps"""
+        if isinstance(test, _ast.UnaryOp) and isinstance(test.op, _ast.Not):
+            return _member_of_maps(test.operand, k)
+        if isinstance(test, _ast.BoolOp) and isinstance(test.op, _ast.And):
+            return all(_nonmember(v, k) for v in test.values)
+        return isinstance(test, _ast.Compare) and len(test.ops) == 1 and isinstance(test.ops[0], _ast.NotIn) and \
+            _norm(test.left) == k and _norm(test.comparators[0]) in CANON_MAPS
+
+    def _guarded(node, k):
+        child, par = node, getattr(node, '_parent', None)
+        while par is not None and not isinstance(par, (_ast.FunctionDef, _ast.AsyncFunctionDef)):
+            if isinstance(par, _ast.If):
+                if any(child is b for b in par.body) and _member_of_maps(par.test, k):
+                    return True
+                if any(child is b for b in par.orelse) and _nonmember(par.test, k):
+                    return True
+            child, par = par, getattr(par, '_parent', None)
+        return False
+
+    def _canonical(fi, node, k, depth=0):
+        if _guarded(node, k):
+            return True
+        if depth > 3 or k in fi.params:
+            return False
+        srcs = [n for n in _own(fi.node) if isinstance(n, _ast.Assign) and
+                any(isinstance(t, _ast.Name) and t.id == k for t in n.targets)]
+        if not srcs:
+            return False
+        for a in srcs:
+            v = a.value
+            if isinstance(v, _ast.Call) and _norm(v.func) == 'self._find_name':
+                continue
+            if isinstance(v, _ast.Name) and _canonical(fi, a, v.id, depth + 1):
+                continue
+            if isinstance(v, _ast.Attribute) and v.attr == 'name':     # the name of an element is canonical by construction
+                continue
+            return False
+        return True
+
+    nx_ = 0
+    el_cls = ix.cls('core.ElementList')
+    if el_cls is None:
+        raise AnalysisError('ElementList not found')
+    for mname, fi in sorted(el_cls.methods.items()):
+        for n in _own(fi.node):
+            if isinstance(n, _ast.Subscript) and isinstance(n.ctx, _ast.Store) and _norm(n.value) == 'self.proxies':
+                nx_ += 1
+                k = n.slice
+                ok = isinstance(k, _ast.Name) and _canonical(fi, n, k.id)
+                chk.ob('C14-X', '%s files a proxy under `%s`' % (fi.qualname, _norm(k)), ok,
+                       '' if ok else '`%s` is not known to be a canonical child name here (not tested against indexes / '
+                       'traversal_indexes, not a result of _find_name): the spelling keeps resolving to this proxy whatever the '
+                       'structure becomes' % _norm(k), '%s:%d' % (fi.module.relpath, n.lineno),
+                       key='C14-X|%s|%s' % (fi.qualname, _norm(k)))
+    chk.floor('proxy cache stores examined (C14-X)', nx_, 2)
+
     chk.rule('C14-G', 'names that address no child are refused (ChildNotFound / ChildNotValid) under the same conditions as in the reviewed tree')
     from . import guardrules
     chk.rule('C14-S', 'the maps that address the children of an element (by name, by long name, order, cardinalities) are replaced '
